@@ -86,9 +86,10 @@ Verdict(e) ==
     [] op = "hash" -> HashOK(hist.hash, WArg(e.a), e.r)
     [] op = "eq_hash" -> EqHashOK(WArg(e.a), WArg(e.b), e.r)
     [] op = "hashset" -> HashSetOK([i \in 1..Len(e.xs) |-> WArg(e.xs[i])], e.r)
-    [] op = "parse" -> ParseOK(IF "text" \in DOMAIN e THEN e.text ELSE e.bytes,
+    [] op = "parse" -> ParseOK(e.api, IF "text" \in DOMAIN e THEN e.text ELSE e.bytes,
                                IF "radix" \in DOMAIN e THEN e.radix ELSE 10,
                                IF "utf8" \in DOMAIN e THEN e.utf8 ELSE TRUE, e.r)
+    [] op = "fmt" /\ e.kind = "debug_alt" -> DebugAltOK(WArg(e.a), e.r)
     [] op = "fmt" -> FormatEventOK(e, IF "N" \in DOMAIN e THEN Arg(e.a) ELSE DZero, WArg(e.a), cfg)
     [] op = "from_float" -> FromFloatOK(ZOf(e.bits).m, e.w, e.r)
     [] op = "to_float" -> ToFloatOK(Arg(e.a), e.r)
@@ -103,7 +104,7 @@ Verdict(e) ==
          IF e.ty \in IntTypes THEN FromIntOK(ZOf(e.v), e.r)
          ELSE IF e.ty = "f32" THEN FromFloatOK(ZOf(e.bits).m, 32, e.r)
          ELSE IF e.ty = "f64" THEN FromFloatOK(ZOf(e.bits).m, 64, e.r)
-         ELSE ParseOK(e.text, 10, TRUE, e.r)
+         ELSE IF IsNumeral(e.text) THEN ParseOK("from_str", e.text, 10, TRUE, e.r) ELSE Chk(IsErr(e.r), "must-be-error")
     [] op = "exp" -> ExpOK(Arg(e.a), cfg.precision, e.r)
     [] op = "sqrt" -> SqrtOK(IF e.form \in {"default", "ctx", "dref_ctx"} THEN "some" ELSE IF e.form = "dref_abs" THEN "abs" ELSE "copysign",
                              Arg(e.a), PrecOf(e), ModeOf(e), e.r)
